@@ -1,7 +1,7 @@
 (* C16 -- Only fully wired workflows run; RunTo executes exactly the upstream closure. *)
 From Coq Require Import List Arith Lia Bool String.
 Import ListNotations.
-From SP Require Import Skel Gen Expected Wiring.
+From SP Require Import Skel Gen Expected Wiring Wiring2.
 
 (* T1: the wiring code *)
 Theorem C16_code_conforms :
@@ -25,6 +25,17 @@ Theorem C16_refuses_before_start :
   | _ => false
   end = true.
 Proof. vm_compute. reflexivity. Qed.
+
+(* the ready flag of a port means exactly "has a remote port", after any sequence of connect / disconnect operations *)
+Theorem C16_ready_flag : forall ops : list wop,
+  let w := fold_left apply_op ops Wiring2.empty in OutInv w /\ InInv w.
+Proof. exact Wiring2.ready_flag_invariant. Qed.
+
+(* out-ports that nobody (selected) consumes are drained automatically: after the reconnection step the port is ready and
+   has a consumer -- the sink if nobody else -- and the flags are still exact *)
+Theorem C16_dangling_drained : forall (sel : nat -> bool) (w : wiring) (o : nat), OutInv w -> InInv w ->
+  let w' := reconnect_port sel w o in oready w' o = true /\ orem w' o <> [] /\ OutInv w' /\ InInv w'.
+Proof. exact Wiring2.dangling_drained. Qed.
 
 (* the recursive upstream collection is exactly the transitive closure of the producer relation, on every acyclic graph,
    and fuel = number of processes suffices *)
@@ -51,6 +62,8 @@ Proof. split; reflexivity. Qed.
 
 Print Assumptions C16_code_conforms.
 Print Assumptions C16_refuses_before_start.
+Print Assumptions C16_ready_flag.
+Print Assumptions C16_dangling_drained.
 Print Assumptions C16_closure.
 Print Assumptions C16_runto_exact.
 Print Assumptions C16_closed_upward.
